@@ -351,6 +351,11 @@ theorem C09.union_enumeration (tms : List Timing) (P : Int) (start : DT) (stop :
 theorem C09.once_per_call (j : Job) (ref : DT) : ((j.runs [ref]).2).length = 1 := by
   simp [Job.runs]
 
+/-- the Bool twin `uniqueB` evaluated on the implementation's accept/reject decisions IS "the
+    entries denote pairwise different recurring instants" -/
+theorem C09.uniqueB_iff (tms : List Timing) : uniqueB tms = true ↔ (tms.map utcPhase).Nodup :=
+  SV.uniqueB_iff tms
+
 /-! non-vacuity: two ways of writing the same daily instants, and two different ones -/
 example : utcPhase (.daily { h := 10, m := 0, s := 0, us := 0, off := some 7200000000 })
         = utcPhase (.daily { h := 8, m := 0, s := 0, us := 0, off := some 0 }) := by decide
